@@ -99,11 +99,13 @@ SCRIPT = textwrap.dedent(
             if rnd.random() < 0.2 and len(self.nodes) <= 4:
                 # dependencies routed through (chains of) literals: p -> lit -> lit -> c
                 b = len(self.nodes)
-                self.nodes.append(dict(kind="call", args=[], stored=False, scope=()))
+                # the head of the chain may itself be stored and/or sit downstream of something that can go out of date
+                self.nodes.append(dict(kind="call", args=([(rnd.choice(["pos", "dep"]), rnd.randrange(b))] if b and rnd.random() < 0.6 else []),
+                                       stored=rnd.random() < 0.5, scope=()))
                 self.nodes.append(dict(kind="lit", args=[("dep", b)], stored=False, scope=()))
                 if rnd.random() < 0.7:
                     self.nodes.append(dict(kind="lit", args=[("dep", b + 1)], stored=False, scope=()))
-                self.nodes.append(dict(kind="call", args=[("dep", len(self.nodes) - 1)], stored=rnd.random() < 0.3, scope=()))
+                self.nodes.append(dict(kind="call", args=[(rnd.choice(["dep", "pos"]), len(self.nodes) - 1)], stored=rnd.random() < 0.6, scope=()))
             self.fail = None            # index of a call that raises
             self.flaky, self.attempts = {}, {}
         def build(self, rec, with_registry=True):
